@@ -444,13 +444,39 @@ def transportExec (R : Rat → Rat) (pm : PM) : PM :=
     ksigs := ksigs.map (fun k => { k with time := τ k.time }),
     insts := transportInsts τ pm.insts }
 
-/-- writer → expected transport → reader -/
+/-! ### the loader's tick guard (`pretty_midi.MAX_TICK`, which `midi_io` overrides at import time)
+
+`PrettyMIDI(file)` computes `max_tick = max(e.time for every event of every track) + 1` and raises ValueError
+(→ `MIDIConversionError` in `midi_to_note_sequence`) when `max_tick > MAX_TICK`.  `write` ends every track with an
+`end_of_track` one tick after the track's last event, so `max_tick = (last written tick) + 2`.  pretty_midi's own
+limit is 10^7 ticks (35 minutes at 960 ticks per quarter and 300 qpm); note-seq raises it — `Gen.MAX_TICK` is the
+value in force after `import note_seq.midi_io`, regenerated on every run. -/
+
+/-- every event time `write` turns into a tick: time / key signatures, and notes (on and off), bends and control
+changes of EVERY instrument (also those without notes) -/
+def pmEventTimes (pm : PM) : List Rat :=
+  pm.tsigs.map (·.time) ++ pm.ksigs.map (·.time) ++
+  pm.insts.flatMap (fun i => i.notes.flatMap (fun n => [n.start, n.end_]) ++ i.bends.map (·.time) ++ i.ccs.map (·.time))
+
+def maxInt (a : Int) (l : List Int) : Int := l.foldl (fun x y => if x < y then y else x) a
+
+/-- the largest tick of the file `write` produces (tempo changes sit at their `_tick_scales` ticks) -/
+def lastWrittenTick (R : Rat → Rat) (pm : PM) : Int :=
+  maxInt (maxScaleTick pm.map) ((pmEventTimes pm).map (timeToTick R pm.map (maxScaleTick pm.map)))
+
+/-- `not (max_tick > MAX_TICK)` with `max_tick = lastTick + 2` -/
+def tickGuardOk (lastTick : Int) : Bool := decide (lastTick + 2 ≤ Gen.MAX_TICK)
+
+/-- writer → expected transport (incl. the loader's tick guard) → reader -/
 def roundTripExec (R : Rat → Rat) (s : NoteSeq) (drop : Option Rat) : Except String NoteSeq :=
   match writePM R s drop with
   | .error e => .error e.name
-  | .ok pm => match readPM R (transportExec R pm) with
-    | .error _ => .error "MIDIConversionError"
-    | .ok r => .ok r
+  | .ok pm =>
+    if tickGuardOk (lastWrittenTick R pm) then
+      match readPM R (transportExec R pm) with
+      | .error _ => .error "MIDIConversionError"
+      | .ok r => .ok r
+    else .error "MIDIConversionError"
 
 /-! ## 6. wire format of a PrettyMIDI object -/
 open Wire
